@@ -9,6 +9,7 @@ From Droop Require Export Model.DriverBase.
 From Droop Require Import Model.DriverParse.
 From Droop Require Export Model.CountCase.
 From Droop Require Import Model.Record Model.DriverRender.
+From Droop Require Import Model.DriverOptions.
 Import ListNotations.
 Open Scope string_scope.
 Open Scope Z_scope.
@@ -185,6 +186,7 @@ Definition run (l : list tok) : string :=
   | TS "values" :: rest => run_values (toks_ints rest)
   | TS "count" :: rest => run_count_case rest
   | TS "render" :: rest => run_render rest
+  | TS "options" :: rest => run_options rest
   | TS "parse" :: rest => run_parse rest
   | _ => "badcommand"
   end.
